@@ -225,20 +225,23 @@ def genotype_oracle(r, gdesc, d, k):
     ms = sorted(set(a.func_muts) | set(a.minors[mn].neutral_muts))
     if len({m.pos for m in ms}) < len(ms):
         return None
+    # several samples in the file, the carrier at a random column (selected with vcf_sample_idx through genotype())
+    samples = ["S0", "S1", "S2"][:r.choice([1, 3, 3])]
+    idx = r.randrange(len(samples))
     recs = []
     for m in ms:
         for p, ref, alt in vcf_records_for(gene, (m.pos, m.op), "one"):
-            recs.append((p, ref, [alt], {"S0": "0/1"}))
+            recs.append((p, ref, [alt], {s_: ("0/1" if s_ == samples[idx] else r.choice(["0/0", "1/1"])) for s_ in samples}))
     if len({p for p, _, _, _ in recs}) < len(recs):
         return None
     path = os.path.join(d, f"g{k}.vcf.gz")
-    write_vcf(path, recs, ["S0"])
+    write_vcf(path, recs, samples)
     ypath = os.path.join(d, f"g{k}.yml")
     with open(ypath, "w") as f:
         f.write(gdesc["yaml"])
     kinds = sorted({kind_of(m.op) for m in ms})
     try:
-        res = genotype(ypath, path, None, output_file=None, genome=gdesc["genome"])
+        res = genotype(ypath, path, None, output_file=None, genome=gdesc["genome"], **({"vcf_sample_idx": r.choice([idx, str(idx)])} if len(samples) > 1 else {}))
         dips = [s.get_major_diplotype() for s in list(res.values())[0]]
     except AldyException as e:
         dips = ["ERROR: " + str(e)[:60]]
